@@ -56,6 +56,13 @@ Alphabet (events are tuples; the last field of R/AP/AA is the deviation tag):
         appended after its body (ACK flag); every pair of subsets of the outstanding ids with a non-empty appendix:
         appendix-only (the body then holds one never-issued filler id) [dev], disjoint split (default), overlapping [dev]
   ("SR",) client circuit.send_reliable(ChatFromViewer), at most MAX_SR per history
+  ("C", i, 1)  the caller cancels the future of its i-th reliable send while it is pending (what
+        `await asyncio.wait_for(circuit.send_reliable(m), 5)` does on timeout); cfg solo, at most once per history [dev].
+        Model: a cancelled send makes no further demands -- whether it keeps being retransmitted until ack / budget is
+        unspecified and not asserted either way -- but the peer may still ack its id (it stays in the ack alphabet), and
+        every other clause keeps holding: no exception out of datagram_received or the resend task
+        (no-exception @ HippoClient._attempt_resends), the carrying packet is acked and dispatched, other sends complete
+        on ack / are retransmitted on cadence / fail at budget.
   ("SP", which, rel, 1)  client circuit.send() of a Message that already carries a packet_id, at most MAX_SP per history
         [dev]: which = zero | last (newest issued id) | last-1 | last+50 -> Message("ChatFromViewer", packet_id=N),
         reliable flag or not (non-synthetic, so not tracked for resends: only the id / one-datagram clauses apply);
@@ -282,6 +289,8 @@ class World:
         self.log: List[Tuple[str, str, str, int]] = []
         self.generation = 0
         self.n_x = 0
+        self.n_cancel = 0
+        self.resend_task_dead = False
         self.before_x: tuple = ()
         self.selfunsub_fired: List[Tuple[str, str, str]] = []
         self.waiters: List[Any] = []
@@ -429,7 +438,8 @@ class Harness:
                     for rel, resent, defer in variants:
                         dev = 0 if (inorder and not resent and not defer) else 1
                         evs.append(("R", p, kind, rel, resent, defer, dev))
-        outstanding = [r["id"] for r in w.rsends if r["status"] == "pending"]
+        # ids the peer may still ack: pending sends, and a send whose future the caller cancelled (the peer cannot know)
+        outstanding = [r["id"] for r in w.rsends if r["status"] in ("pending", "cancelled")]
         idsets: List[Tuple[tuple, int]] = []
         n = len(outstanding)
         for mask in range(1, 1 << n):
@@ -461,6 +471,9 @@ class Harness:
                     evs.append(("SP", which, rel, 1))
             if w.echo_msg is not None:
                 evs.append(("SP", "echo", 1 if int(w.echo_msg.send_flags) & F_REL else 0, 1))
+        if self.cfg == "solo" and w.n_cancel < 1:
+            # the caller cancels the future of a pending send (what `await asyncio.wait_for(send_reliable(m), 5)` does)
+            evs += [("C", i, 1) for i, r in enumerate(w.rsends) if r["status"] == "pending"]
         if self.cfg == "reregister" and w.n_x < 1:
             evs.append(("X",))  # the sim is unregistered and registered again at the same address
         if not w.alive:
@@ -479,11 +492,11 @@ class Harness:
     @staticmethod
     def stale_id(w: World) -> Optional[int]:
         """Newest id the client issued that is not an outstanding reliable send (acked, failed, unreliable, PacketAck)."""
-        pending = {r["id"] for r in w.rsends if r["status"] == "pending"}
+        pending = {r["id"] for r in w.rsends if r["status"] in ("pending", "cancelled")}
         return max((i for i in w.issued if i not in pending), default=None)
 
     def deviation(self, ev) -> int:
-        return int(ev[-1]) if ev[0] in ("R", "AP", "AA", "AB", "SP") else 0
+        return int(ev[-1]) if ev[0] in ("R", "AP", "AA", "AB", "SP", "C") else 0
 
     # ---- canonical state ----------------------------------------------------------------------------------
     def canon(self, w: World):
@@ -502,7 +515,7 @@ class Harness:
         return (tuple(c.seen_reliable), c.packet_id_base, unacked, c.is_alive, ready, timers,
                 tuple(sorted(w.peer.items())), w.max_peer, sends, w.n_sends - w.n_sr, w.n_sr, w.n_sp,
                 (w.echo_msg.name, int(w.echo_msg.send_flags) & F_REL) if w.echo_msg is not None else None,
-                tuple(len(e) for e in w.events), w.alive, w.generation, w.n_x, w.before_x,
+                tuple(len(e) for e in w.events), w.alive, w.generation, w.n_x, w.before_x, w.n_cancel, w.client._resend_task.done(),
                 w.last_issued,
                 self.stale_id(w), tuple(sorted(w.ack_debt)), tuple(sorted(w.ping_owed.items())),
                 tuple(sorted(w.ping_seen.items())))
@@ -551,7 +564,9 @@ class Harness:
                     self.bad(w, "retransmit-identity", "Circuit.resend_unacked",
                              f"retransmission of id {rec['id']} has flags {data[0]:#x}, expected "
                              f"{rec['orig'][0] | F_RESENT:#x} (original | RESENT)")
-                if rec["status"] != "pending":
+                if rec["status"] in ("cancelled", "cancelled-acked"):
+                    pass  # unspecified: a cancelled send may or may not keep being retransmitted
+                elif rec["status"] != "pending":
                     self.bad(w, "no-retransmit-after-completion", "Circuit.resend_unacked",
                              f"id {rec['id']} retransmitted at t={t} although its send is {rec['status']}")
                 elif t - rec["tx"][-1] < w.interval - EPS:
@@ -559,7 +574,7 @@ class Harness:
                              f"id {rec['id']} retransmitted {t - rec['tx'][-1]:.3f}s after the previous transmission, "
                              f"interval is {w.interval}s")
                 rec["tx"].append(t)
-                if len(rec["tx"]) > BUDGET:
+                if len(rec["tx"]) > BUDGET and not rec["status"].startswith("cancelled"):
                     self.bad(w, "fail-on-budget", "Circuit.resend_unacked",
                              f"id {rec['id']} transmitted {len(rec['tx'])} times, retry budget is {BUDGET}")
                 continue
@@ -612,6 +627,12 @@ class Harness:
     def end_of_step(self, w: World, quiescent: bool):
         self.drain_out(w)
         self.account_log(w)
+        task = w.client._resend_task
+        if task is not None and task.done() and not w.resend_task_dead:
+            w.resend_task_dead = True
+            exc = None if task.cancelled() else task.exception()
+            self.bad(w, "no-exception", "HippoClient._attempt_resends",
+                     f"the resend task ended ({exc!r}): no pending send is retransmitted or failed any more")
         self.check_futures(w)
         now = w.loop.time()
         for r in w.rsends:
@@ -656,6 +677,8 @@ class Harness:
                 r["status"] = "acked"
                 r["form"] = (forms or {}).get(r["id"], form)
                 w.completions += 1
+            elif r["status"] == "cancelled" and r["id"] in acks:
+                r["status"] = "cancelled-acked"  # no demand on the (cancelled) future; everything else must go on
         self.account_log(w)
         n0 = len(w.log)
         try:
@@ -825,6 +848,12 @@ class Harness:
                 loop = w.loop
                 fut.add_done_callback(lambda f, rec=rec, loop=loop: rec.__setitem__("done_at", loop.time()))
                 w.rsends.append(rec)
+        elif kind == "C":
+            rec = w.rsends[ev[1]]
+            assert rec["status"] == "pending"
+            w.n_cancel += 1
+            rec["status"] = "cancelled"
+            rec["fut"].cancel()
         elif kind == "X":
             w.loop.run_ready()
             self.drain_out(w)
@@ -955,7 +984,8 @@ def run(run: Run):
         "connect()'s own RegionHandshake wait_for is represented by the same mechanism on ChatFromSimulator / "
         "StartPingCheck, connect() itself is not run); "
         f"at most {MAX_SP} send of a Message with a preset packet_id per history; "
-        "'reregister' (unregister_region + register_region/open_circuit at the same address once per history; a new "
+        "a send whose future the caller cancelled makes no further demands (retransmission unspecified), all other clauses "
+        "continue to hold; 'reregister' (unregister_region + register_region/open_circuit at the same address once per history; a new "
         "connection restarts packet ids on both sides; sends pending on the torn-down circuit are out of scope); "
         "dedupe-window family: only UNRELIABLE traffic lies between a reliable packet and its retransmission (a "
         "retransmission after more than `window` reliable packets may legitimately be re-delivered); window size measured "
